@@ -260,6 +260,8 @@ def setup():
     import concurrent.futures as cf
     with cf.ThreadPoolExecutor(max_workers=8) as ex:
         list(ex.map(lambda v: e3.build_config(frozenset(), v), e3.VARIANTS))
+    # the second serde_json configuration of C17 (own target directories)
+    c17_ap.probe("quick")
     print("setup done in %.1fs" % (time.time() - t0))
     return 0
 
